@@ -7,7 +7,7 @@
 (* Replay granularity: the two critical sections of an unsubscribe are replayed back to    *)
 (* back (the harness cannot stop the real call between them without a hook), so Unsub2     *)
 (* is forced right after Unsub1 here; their interleavings are covered by the exhaustive    *)
-(* model only. Sub1/Sub2 and RemoveStream/OnStreamClose are forced by harness gates.       *)
+(* model only. SubCheck/Sub1/Sub2 and RemoveStream/OnStreamClose are forced by harness gates.*)
 EXTENDS PubSubMC, VerifEmit
 
 CONSTANTS GenRole,    \* "node" | "client"
@@ -61,9 +61,10 @@ NodeG ==
     \/ (InCls("stream") \/ InCls("finish")) /\ On("OnStreamClose") /\ \E s \in Sids : OnStreamClose(s) /\ Rec([act |-> "OnStreamClose", s |-> s])
     \/ InCls("sub") /\ Free /\ On("SubReject") /\ \E s \in Sids, sp \in Spaces, f \in SubFrames :
             SelS(s) /\ SelSp(sp) /\ SubReject(s, sp, f) /\ Rec([act |-> "SubReject", s |-> s, sp |-> sp, f |-> f])
-    \/ (InCls("sub") \/ InCls("subgood")) /\ Free /\ On("Sub1") /\ \E s \in Sids, sp \in Spaces, f \in SubFrames :
-            SelS(s) /\ SelSp(sp) /\ Sub1(s, sp, f) /\ Rec([act |-> "Sub1", s |-> s, sp |-> sp, f |-> f])
-    \/ (InCls("sub") \/ InCls("finish")) /\ On("Sub2") /\ Sub2 /\ Rec([act |-> "Sub2"])
+    \/ (InCls("sub") \/ InCls("subgood")) /\ Free /\ On("SubCheck") /\ \E s \in Sids, sp \in Spaces, f \in SubFrames :
+            SelS(s) /\ SelSp(sp) /\ SubCheck(s, sp, f) /\ Rec([act |-> "SubCheck", s |-> s, sp |-> sp, f |-> f])
+    \/ (InCls("sub") \/ InCls("subgood") \/ InCls("finish")) /\ On("Sub1") /\ \E s \in Sids : Sub1(s) /\ Rec([act |-> "Sub1", s |-> s])
+    \/ (InCls("sub") \/ InCls("subgood") \/ InCls("finish")) /\ On("Sub2") /\ Sub2 /\ Rec([act |-> "Sub2"])
     \/ InCls("unsub") /\ On("Unsub1") /\ \E s \in Sids, sp \in GoodSpaces, P \in UnsubFrames :
             /\ SelS(s) /\ SelSp(sp)
             /\ Free \/ (P = {} /\ OfSpace(want[s], sp) # {})
